@@ -250,6 +250,13 @@ func (c *boundedPool) pruneIdleConns(idleTime time.Duration) {
 			for {
 				select {
 				case conn := <-conns:
+					if conn == nil {
+						// The pool was closed meanwhile.
+						for _, conn := range newConns {
+							conn.c.Close()
+						}
+						return
+					}
 					if conn.t.Add(idleTime).Before(time.Now()) {
 						c.tryFree()
 						conn.c.Close()
@@ -263,6 +270,14 @@ func (c *boundedPool) pruneIdleConns(idleTime time.Duration) {
 		DONE:
 			if len(newConns) > 0 {
 				c.mu.RLock()
+				if c.conns == nil {
+					// The pool was closed meanwhile.
+					c.mu.RUnlock()
+					for _, conn := range newConns {
+						conn.c.Close()
+					}
+					return
+				}
 				for _, conn := range newConns {
 					c.conns <- conn
 				}
